@@ -7,10 +7,13 @@ PLAN = {
     'obligations': [
         {'id': 'Teakra_Disasm_Do', 'entry': 'h_Disasm_Do', 'enforce': ['Teakra_Disasm_Do'], 'loop_contracts': True, 'timeout': 300,
          'expect_classes': {'postcondition': 3, 'assigns': 2, 'loop_invariant_step': 1, 'loop_decreases': 1}, 'min_obligations': 10},
+        {'id': 'asm_text_roundtrip_enumeration', 'entry': 'h_Disasm_Do', 'native_exhaustive': 'verif_exh_asm_roundtrip', 'exhaustive_bridges': ['replay/enum_asm_roundtrip.cpp'], 'canary': False,
+         'bounded': 'exhaustive native run of the real disassembler + parser over all 65536 first words x 4 second words (0x0000, 0xFFFF, 0x1234, 0x8001)',
+         'range': 65536, 'what': 'token list assembles back to an equivalent opcode with identical disassembly and joined text', 'timeout': 3000},
     ],
     'trusted_base': ['Teakra::Disassembler::Do returns an arbitrary string (its 330 string-building visitor methods are outside any contract here)',
                      'std::string modelled as (pointer, length)'],
     'assumptions': ['buffer and text lengths below 2^20'],
-    'not_covered': ['text <-> opcode injectivity, assembler round trip (parser.cpp), joined-text form vs token API: std::string / stringstream / unordered_map code is out of reach of CBMC contracts (DESIGN.md C05)',
+    'not_covered': ['text <-> opcode round trip and joined-text form: NOT proved -- std::string / stringstream / unordered_map code is out of reach of CBMC contracts; covered only by the bounded stand-in asm_text_roundtrip_enumeration (4 second words per opcode); execution equality of the re-assembled opcode and injectivity up to unused bits are not checked',
                     'firmware sources vs shipped DSP binaries: the cdc.bin files are git-lfs pointers in this sandbox'],
 }
